@@ -376,6 +376,8 @@ def scenarios():
     S.append((Sc('pinned-bad-then-next-mx', [B(cert='selfsigned'), B(cert='valid2')], pinned={0: 'ca.pem'}), [(1, 'T')], None))
     S.append((Sc('pinned-no-starttls', [B(ehlo_clear=['8BITMIME'])], pinned={0: 'ca.pem'}), [(0, 'C')], 'known:c18-pinned-without-starttls'))
     S.append((Sc('clientcert-no-starttls', [B(ehlo_clear=['8BITMIME'])], clientcert=True), [], None))
+    S.append((Sc('clientcert-wildcard-route-no-starttls', [B(ehlo_clear=['8BITMIME'])], clientcert=True, routefile='wildcard'), [], None))
+    S.append((Sc('clientcert-wildcard-route-presented', [B(want_client_cert=True)], clientcert=True, routefile='wildcard'), [(0, 'T')], 'client-cert-0'))
     S.append((Sc('clientcert-2mx-first-554', [B(banner=b'554 go away\r\n'), B(ehlo_clear=['8BITMIME'])], clientcert=True), [], None))
     S.append((Sc('clientcert-2mx-first-bad-tls', [B(starttls_reply=b'454 no\r\n', cert=None), B(ehlo_clear=['8BITMIME'])], clientcert=True), [], None))
     S.append((Sc('clientcert-presented', [B(want_client_cert=True)], clientcert=True), [(0, 'T')], 'client-cert-0'))
